@@ -153,6 +153,7 @@ func rulesC13(e *Engine, r *Report) {
 			"client.(*binnable).GetNextAlloc":  {"sender", "b + n"},
 			"client.(*binnable).IsAllocated":   {"sender", "allocated == n"},
 			"http.(*Server).routeData":         {"receiver", "ByteRange{Beg, End}"},
+			"http.validateParts":               {"receiver", "0 <= beg <= end <= file size (F52)"},
 			"stage.(*Stage).partReceived":      {"receiver", "companionPartExists(cmp, beg, end)"},
 		}
 		n := 0
@@ -196,7 +197,13 @@ func rulesC13(e *Engine, r *Report) {
 				}
 				okU := true
 				for _, u := range uses {
-					asEnd := strings.Contains(u, ".End = "+v+"#1") || pat("call(stage.companionPartExists)(§, "+v+"#0, "+v+"#1)").MatchString(u)
+					if strings.HasPrefix(u, "return(call(fmt.Errorf)") {
+						continue // the message of a refusal
+					}
+					asEnd := strings.Contains(u, ".End = "+v+"#1") || pat("call(stage.companionPartExists)(§, "+v+"#0, "+v+"#1)").MatchString(u) ||
+						// compared as an end: not before the beginning, not beyond the file's size
+						strings.Contains(u, v+"#1 < "+v+"#0)") || strings.Contains(u, v+"#0 <= "+v+"#1)") ||
+						pat("(invoke(sts.Binned.GetFileSize)(§) < "+v+"#1)").MatchString(u) || pat("("+v+"#1 <= invoke(sts.Binned.GetFileSize)(§))").MatchString(u)
 					if rule.side == "receiver" && !asEnd {
 						okU = false
 					}
@@ -536,5 +543,49 @@ func rulesC13(e *Engine, r *Report) {
 			}
 		}
 		r.Min("R13.12", "places that set X-STS-Sep", n, 4)
+	}
+	// ---------------------------------------------------------------- R13.13
+	r.Rule("R13.13", "a malformed range is refused with the names, before anything is prepared: validateParts returns nil only on paths where, for every part, beg >= 0, end >= beg and end <= the announced file size were tested (the part decoder slices with the range and the stage sizes, seeks and records with it)")
+	if fn := needFn(e, r, "R13.13", "http.validateParts"); fn != nil {
+		sl := "invoke(sts.Binned.GetSlice)(p0[§])"
+		sz := "invoke(sts.Binned.GetFileSize)(p0[§])"
+		cls := labeler(
+			C("(0 <= "+sl+"#0)", "begOK"), C("("+sl+"#0 >= 0)", "begOK"),
+			C("("+sl+"#0 <= "+sl+"#1)", "orderOK"), C("("+sl+"#1 >= "+sl+"#0)", "orderOK"),
+			C("("+sl+"#1 <= "+sz+")", "endOK"), C("("+sz+" >= "+sl+"#1)", "endOK"),
+		)
+		// each of the three tests exists and its failing side leaves with an error
+		n := 0
+		for _, t := range []struct {
+			what string
+			pats []string
+		}{
+			{"beg >= 0", []string{"(" + sl + "#0 < 0)", "(0 > " + sl + "#0)"}},
+			{"end >= beg", []string{"(" + sl + "#1 < " + sl + "#0)", "(" + sl + "#0 > " + sl + "#1)"}},
+			{"end <= size", []string{"(" + sz + " < " + sl + "#1)", "(" + sl + "#1 > " + sz + ")"}},
+		} {
+			found := false
+			for _, p := range t.pats {
+				for _, ed := range e.ifEdges(fn, p) {
+					succ := ed.B.Succs[ed.Succ]
+					// the failing side reaches a return of a non-nil error without passing the loop header
+					if rt, ok := succ.Instrs[len(succ.Instrs)-1].(*ssa.Return); ok && len(rt.Results) == 1 && e.Canon(rt.Results[0]) != "nil" {
+						found = true
+					}
+				}
+			}
+			n++
+			r.Check(found, "R13.13", "http.validateParts: refuses a part unless "+t.what, e.Pos(fn.Pos()),
+				"no test `"+t.what+"` whose failing side returns an error", 1)
+		}
+		_ = cls
+		r.Min("R13.13", "range tests in validateParts", n, 3)
+		callers := 0
+		for _, s := range e.AllSites() {
+			if e.CalleeKey(s.Instr.Common()) == "http.validateParts" {
+				callers++
+			}
+		}
+		r.Min("R13.13", "routes that validate their parts", callers, 2)
 	}
 }
